@@ -95,6 +95,8 @@ class DeblendMachine(Machine):
             k = rng.randint(1, len(labs))
             sub = rng.sample([int(x) for x in labs], k)
             out['labels'] = sub if rng.chance(0.8) else sub[0]
+            if rng.chance(0.05):
+                out['labels'] = []
         else:
             out['labels'] = None
         return out
@@ -119,8 +121,9 @@ class DeblendMachine(Machine):
             labels = sc.get('labels')
             if labels is not None:
                 if isinstance(labels, list):
+                    empty = not labels
                     labels = [x for x in labels if x in labs]
-                    if not labels:
+                    if not labels and not empty:
                         labels = None
                 elif labels not in labs:
                     labels = None
